@@ -143,9 +143,10 @@ class LifeSystem:
     def start(self):
         if not self.deep.started:
             self.lives = getattr(self, 'lives', 0) + 1
-            # the service's configuration changes with every SECOND life only: a life that follows a shutdown with the
-            # configuration unchanged gets 'no change' for the hash the agent still holds, and must act on it all the same
-            self.late_hash = 'h%d' % ((self.lives + 1) // 2)
+            # the service's configuration changes before every SECOND life (lives 2, 4, ...): a life that follows a
+            # shutdown with the configuration unchanged (lives 3, 5, ...) gets 'no change' for the hash the agent still
+            # holds, and must act on it all the same
+            self.late_hash = 'h%d' % (self.lives // 2 + 1)
             self.poll_fail = False          # (a service that failed during the previous shutdown is back for this life)
         self.deep.start()
 
@@ -178,27 +179,51 @@ class LifeSystem:
         from deep.api.tracepoint.eventsnapshot import EventSnapshot
         from deep.api.tracepoint.tracepoint_config import TracePointConfig
         from deep.api.resource import Resource
-        first, second = threading.Event(), threading.Event()
+        first, second, zero = threading.Event(), threading.Event(), threading.Event()
         self.send_block = first
         snaps = []
-        for blk, fail in ((first, True), (second, False)):
-            snap = EventSnapshot(TracePointConfig('x', 'f.py', 1, {}, [], []), 1, Resource.create(), [], {})
-            snap._id = len(self.send_blocks) + 1001
-            self.send_blocks[snap._id] = blk
-            if fail:
-                self.send_fail_ids.add(snap._id)
-            snaps.append(snap)
-            try:
-                self.deep.push.push_snapshot(snap)
-            except BaseException:
-                # after a shutdown the task handler stays closed: a later start does not reopen it and the delivery
-                # is refused visibly - then there is nothing pending for this shutdown to drain
-                blk.set()
+        accepted = []
+        th = self.deep.task_handler
+        o_submit = th.submit_task
+
+        def submit(*a, **kw):
+            f = o_submit(*a, **kw)
+            accepted.append(f)
+            return f
+        th.submit_task = submit
+        # the history before the shutdown: an earlier delivery (zero) is in flight when the slow one (second) is handed
+        # over, finishes, and only then the failing one (first) is handed over - so the handler's bookkeeping has seen
+        # an entry go away while another one was still pending
+        try:
+            for blk, fail in ((zero, False), (second, False), (first, True)):
+                snap = EventSnapshot(TracePointConfig('x', 'f.py', 1, {}, [], []), 1, Resource.create(), [], {})
+                snap._id = len(self.send_blocks) + 1001
+                self.send_blocks[snap._id] = blk
+                if fail:
+                    self.send_fail_ids.add(snap._id)
+                snaps.append(snap)
+                try:
+                    self.deep.push.push_snapshot(snap)
+                except BaseException:
+                    # after a shutdown the task handler stays closed: a later start does not reopen it and the delivery
+                    # is refused visibly - then there is nothing pending for this shutdown to drain
+                    blk.set()
+                if blk is second and accepted:
+                    zero.set()
+                    t0 = time.time()
+                    while not accepted[0].done() and time.time() - t0 < 5:
+                        time.sleep(0.002)
+                    t0 = time.time()
+                    while len(th._pending) > len(accepted) - 1 and time.time() - t0 < 1:
+                        time.sleep(0.002)       # (its done-callback has removed the entry)
+        finally:
+            th.submit_task = o_submit
+            zero.set()
         orig = self.deep.task_handler.flush
         # the accepted deliveries themselves: "still pending" is judged on whether they have FINISHED when shutdown
         # returns, not on the handler's bookkeeping (its done-callback removes the entry a moment after the waiters
         # of the future are woken, which on a loaded machine can be after shutdown() has returned)
-        self._accepted = list(self.deep.task_handler._pending.values())
+        self._accepted = [f for f in accepted if not f.done()]
 
         def flush():
             first.set()
